@@ -314,6 +314,12 @@ func runProperty(p *Property, tier, repo, only string) int {
 		st := map[string]any{}
 		runSelfTest(repo, p.ID, false, st)
 		extra["self_test"] = st
+		vc := vtaCrossCheck(repo, c)
+		extra["vta_cross_check"] = vc
+		if miss, ok := vc["vta_edges_missing_from_module_graph"].([]string); ok && len(miss) > 0 {
+			all = append(all, Obligation{Rule: "CALLGRAPH", Key: "vta-edge-missing", Status: "undecided",
+				Expected: "every module-to-module edge VTA finds is in the module call graph", Found: strings.Join(head(miss, 5), "; ")})
+		}
 		for _, env := range [][]string{{"GOOS=windows"}, {"GOOS=darwin"}, {"GOARCH=386"}} {
 			c2, err := Load(repo, modPath, nil, env)
 			k := "load_variant_" + strings.Join(env, ",")
